@@ -96,6 +96,8 @@ pub enum Op {
     CloneHandle,
     DropExtraHandle,
     Shutdown,
+    /// `BrokerHandle::shutdown()` in the middle of the program
+    BrokerShutdown,
 
     CreateObject { o: u8, u: u8 },
     DestroyObject { o: u8 },
@@ -125,6 +127,8 @@ pub enum Op {
     Unbind { ch: u8, end: End },
     Bind { ch: u8, end: End, k: u8 },
     Claim { ch: u8, end: End, cap: u8 },
+    /// start the claim, poll it `polls`+1 times (yielding in between), then drop the future
+    ClaimCancel { ch: u8, end: End, cap: u8, polls: u8 },
     Establish { ch: u8, end: End },
     Send { ch: u8, n: u8 },
     Recv { ch: u8, n: u8, wait: bool },
@@ -195,6 +199,18 @@ pub struct Program {
     pub allow_late_abort: bool,
     /// a bus listener may be polled after `destroy()`
     pub allow_listener_after_destroy: bool,
+    pub allow_broker_shutdown_in_flight: bool,
+}
+
+impl Program {
+    pub fn allow(&self) -> Allow {
+        Allow {
+            refused_claims: self.allow_refused_claims,
+            late_abort: self.allow_late_abort,
+            listener_after_destroy: self.allow_listener_after_destroy,
+            broker_shutdown_in_flight: self.allow_broker_shutdown_in_flight,
+        }
+    }
 }
 
 // ---------------------------------------------------------------------------------------------
@@ -245,6 +261,7 @@ struct Gen<'a, 'b> {
     /// which task produces a resource (client index, or usize::MAX for the shared board)
     producer: std::collections::BTreeMap<(usize, Res), usize>,
     allow: Allow,
+    aim: Aim,
 }
 
 pub fn decode_header(t: &mut Tape) -> (u64, u64, u8, Vec<ClientSpec>, bool) {
@@ -277,17 +294,67 @@ pub fn decode_header(t: &mut Tape) -> (u64, u64, u8, Vec<ClientSpec>, bool) {
     (det_seed, sched_seed, policy, clients, idle_early)
 }
 
-/// Which known-defect triggers a case class may contain.
-#[derive(Debug, Clone, Copy, Default, PartialEq, Eq)]
+/// Shapes that used to trigger defects F2/F5/F6/F7 (repaired since). Everything is allowed in
+/// every class unless an opt-in `VAPI_EXCLUDE_Fn=1` switch takes a shape out again.
+#[derive(Debug, Clone, Copy, PartialEq, Eq)]
 pub struct Allow {
     pub refused_claims: bool,
     pub late_abort: bool,
     pub listener_after_destroy: bool,
+    /// broker shutdown with client requests in flight, connection shutdown while the broker may
+    /// stop on idle
+    pub broker_shutdown_in_flight: bool,
 }
 
-pub fn decode_program(tape: &[u8], allow: Allow, max_ops: usize) -> Program {
+fn env_on(name: &str) -> bool {
+    std::env::var(name).map(|v| v == "1").unwrap_or(false)
+}
+
+impl Allow {
+    pub fn from_env() -> Self {
+        Allow {
+            refused_claims: !env_on("VAPI_EXCLUDE_F2"),
+            late_abort: !env_on("VAPI_EXCLUDE_F5"),
+            listener_after_destroy: !env_on("VAPI_EXCLUDE_F6"),
+            broker_shutdown_in_flight: !env_on("VAPI_EXCLUDE_F7"),
+        }
+    }
+
+    pub fn none() -> Self {
+        Allow { refused_claims: false, late_abort: false, listener_after_destroy: false, broker_shutdown_in_flight: false }
+    }
+}
+
+impl Default for Allow {
+    fn default() -> Self {
+        Allow::from_env()
+    }
+}
+
+/// What a case class aims at (how often the dedicated fragments are chosen).
+#[derive(Debug, Clone, Copy, PartialEq, Eq)]
+pub enum Aim {
+    /// a bit of everything
+    Mixed,
+    Claims,
+    LateAbort,
+    ListenerAfterDestroy,
+    /// channel programs with capacities 1..4 on bounded transports <= 2
+    SmallCredit,
+}
+
+pub fn decode_program(tape: &[u8], allow: Allow, aim: Aim, max_ops: usize) -> Program {
     let mut t = Tape::new(tape);
-    let (det_seed, sched_seed, policy, clients, idle_early) = decode_header(&mut t);
+    let (det_seed, sched_seed, policy, mut clients, idle_early) = decode_header(&mut t);
+    if aim == Aim::SmallCredit {
+        for c in clients.iter_mut() {
+            let n = match c.tkind {
+                TKind::Bounded(n) => 1 + (n % 2),
+                TKind::Unbounded => 2,
+            };
+            c.tkind = TKind::Bounded(n);
+        }
+    }
     let mut tasks: Vec<TaskProg> = vec![];
     let mut cl = vec![];
     for (ci, c) in clients.iter().enumerate() {
@@ -313,7 +380,7 @@ pub fn decode_program(tape: &[u8], allow: Allow, max_ops: usize) -> Program {
         });
     }
     let n = tasks.len();
-    let mut g = Gen { t: &mut t, cl, tasks, parked: vec![false; n], pub_svcs: vec![], unbound: [0, 0], scopes: 0, total: 0, producer: Default::default(), allow };
+    let mut g = Gen { t: &mut t, cl, tasks, parked: vec![false; n], pub_svcs: vec![], unbound: [0, 0], scopes: 0, total: 0, producer: Default::default(), allow, aim };
     while g.total < max_ops {
         let b = g.t.u8();
         if b == 0 {
@@ -331,6 +398,7 @@ pub fn decode_program(tape: &[u8], allow: Allow, max_ops: usize) -> Program {
         allow_refused_claims: allow.refused_claims,
         allow_late_abort: allow.late_abort,
         allow_listener_after_destroy: allow.listener_after_destroy,
+        allow_broker_shutdown_in_flight: allow.broker_shutdown_in_flight,
     }
 }
 
@@ -366,7 +434,9 @@ pub fn needs(ci: usize, op: &Op) -> Vec<(usize, Res)> {
         | Op::SubscribeAll { p }
         | Op::UnsubscribeAll { p }
         | Op::NextEvent { p, .. } => vec![(ci, Res::Proxy(*p))],
-        Op::Unbind { ch, end } | Op::Claim { ch, end, .. } | Op::Establish { ch, end } | Op::CloseEnd { ch, end } | Op::DropEnd { ch, end } => vec![(ci, end_res(*end, *ch))],
+        Op::Unbind { ch, end } | Op::Claim { ch, end, .. } | Op::ClaimCancel { ch, end, .. } | Op::Establish { ch, end } | Op::CloseEnd { ch, end } | Op::DropEnd { ch, end } => {
+            vec![(ci, end_res(*end, *ch))]
+        }
         Op::Bind { end, k, .. } => vec![(BOARD, Res::Unbound(*end as u8, *k))],
         Op::Send { ch, .. } => vec![(ci, Res::SndEst(*ch))],
         Op::Recv { ch, .. } => vec![(ci, Res::RcvEst(*ch))],
@@ -504,15 +574,34 @@ impl Gen<'_, '_> {
     }
 
     fn fragment(&mut self, b: u8) {
-        // classes that may contain the trigger of a known defect aim at it part of the time
-        if self.allow.late_abort && b % 4 == 0 {
+        // dedicated fragments for the shapes around the repaired defects F2/F5/F6/F7: often in
+        // the class that aims at them, now and then everywhere
+        let (la, lad, rc, cc, sc) = match self.aim {
+            Aim::Mixed => (b % 32 == 0, b % 32 == 1, b % 32 == 2 || b % 32 == 3, b % 32 == 4 || b % 32 == 5, false),
+            Aim::LateAbort => (b % 4 == 0, false, false, false, false),
+            Aim::ListenerAfterDestroy => (false, b % 4 == 0, false, false, false),
+            Aim::Claims => (false, false, b % 6 == 0, b % 6 == 1, false),
+            Aim::SmallCredit => (false, false, false, b % 32 == 4, b % 2 == 0),
+        };
+        if la && self.allow.late_abort {
             return self.frag_late_abort();
         }
-        if self.allow.listener_after_destroy && b % 4 == 0 {
+        if lad && self.allow.listener_after_destroy {
             return self.frag_listener_after_destroy();
         }
-        if self.allow.refused_claims && b % 6 == 0 {
+        if rc && self.allow.refused_claims {
             return self.frag_refused_claim();
+        }
+        if cc && self.allow.refused_claims {
+            return self.frag_claim_cancel();
+        }
+        if sc {
+            return self.frag_channel();
+        }
+        if self.aim == Aim::Mixed && b % 64 == 6 && self.allow.broker_shutdown_in_flight {
+            let a = self.client();
+            let ta = self.task(a);
+            return self.push(ta, Op::BrokerShutdown);
         }
         // the first byte doubles as fragment selector (1..=255)
         let x = ((b as usize - 1) * 110) / 255;
@@ -772,6 +861,57 @@ impl Gen<'_, '_> {
         self.push(ta, Op::ListenerNext { l, n: 2, wait: false });
     }
 
+    /// A claim whose future is dropped before the reply arrives, racing with whatever makes the
+    /// broker refuse it (a competing claimant, the creator closing its end) or not.
+    fn frag_claim_cancel(&mut self) {
+        let a = self.client();
+        let ta = self.task(a);
+        let ch = self.t.below(NCH) as u8;
+        let claim = self.end();
+        let oth = other(claim);
+        let cap = self.t.below(CAPS.len()) as u8;
+        self.push(ta, Op::CreateChannel { ch, claim, cap });
+        self.set_end(a, ch, claim, GEnd::Pending);
+        let polls = self.t.below(4) as u8;
+        match self.t.weighted(&[2, 3, 2]) {
+            0 => {
+                // the creator cancels the claim of its own other end
+                self.push(ta, Op::ClaimCancel { ch, end: oth, cap, polls });
+                self.set_end(a, ch, oth, GEnd::None);
+            }
+            1 => {
+                // another client cancels its claim, a third one may claim for real
+                self.push(ta, Op::Unbind { ch, end: oth });
+                self.set_end(a, ch, oth, GEnd::None);
+                let k = self.unbound[oth as usize] as u8;
+                self.unbound[oth as usize] += 1;
+                let b = self.client();
+                let tb = self.task(b);
+                let chb = self.t.below(NCH) as u8;
+                self.push(tb, Op::Bind { ch: chb, end: oth, k });
+                self.push(tb, Op::ClaimCancel { ch: chb, end: oth, cap, polls });
+                if self.t.bool() {
+                    let c = self.client();
+                    let tc = self.task(c);
+                    let chc = self.t.below(NCH) as u8;
+                    self.push(tc, Op::Bind { ch: chc, end: oth, k });
+                    self.push(tc, Op::Claim { ch: chc, end: oth, cap });
+                }
+            }
+            _ => {
+                // the creator kills its end while the other one is being claimed and cancelled
+                let ta2 = self.task_other(a, ta);
+                if self.t.bool() {
+                    self.push(ta2, Op::DropEnd { ch, end: claim });
+                } else {
+                    self.push(ta2, Op::CloseEnd { ch, end: claim });
+                }
+                self.push(ta, Op::ClaimCancel { ch, end: oth, cap, polls });
+                self.set_end(a, ch, oth, GEnd::None);
+            }
+        }
+    }
+
     /// F2 trigger: a claim the broker refuses (second claimant, or the channel is gone).
     fn frag_refused_claim(&mut self) {
         let a = self.client();
@@ -782,27 +922,90 @@ impl Gen<'_, '_> {
         let cap = self.t.below(CAPS.len()) as u8;
         self.push(ta, Op::CreateChannel { ch, claim, cap });
         self.set_end(a, ch, claim, GEnd::Pending);
-        if self.t.bool() {
-            // the creator closes its end, then claims the other one
-            if self.t.bool() {
-                self.push(ta, Op::CloseEnd { ch, end: claim });
-            } else {
-                self.push(ta, Op::DropEnd { ch, end: claim });
+        match self.t.weighted(&[3, 3, 2, 2, 2]) {
+            0 => {
+                // the creator closes its end, then claims the other one
+                if self.t.bool() {
+                    self.push(ta, Op::CloseEnd { ch, end: claim });
+                } else {
+                    self.push(ta, Op::DropEnd { ch, end: claim });
+                }
+                self.push(ta, Op::Claim { ch, end: oth, cap });
+                self.set_end(a, ch, oth, GEnd::None);
             }
-            self.push(ta, Op::Claim { ch, end: oth, cap });
-            self.set_end(a, ch, oth, GEnd::None);
-        } else {
-            // two claimants for the unbound end
-            self.push(ta, Op::Unbind { ch, end: oth });
-            self.set_end(a, ch, oth, GEnd::None);
-            let k = self.unbound[oth as usize] as u8;
-            self.unbound[oth as usize] += 1;
-            for _ in 0..2 {
+            1 => {
+                // two claimants for the unbound end
+                self.push(ta, Op::Unbind { ch, end: oth });
+                self.set_end(a, ch, oth, GEnd::None);
+                let k = self.unbound[oth as usize] as u8;
+                self.unbound[oth as usize] += 1;
+                for _ in 0..2 {
+                    let c = self.client();
+                    let tc = self.task(c);
+                    let chc = self.t.below(NCH) as u8;
+                    self.push(tc, Op::Bind { ch: chc, end: oth, k });
+                    self.push(tc, Op::Claim { ch: chc, end: oth, cap });
+                }
+            }
+            2 => {
+                // one client binds the same end twice and claims both
+                self.push(ta, Op::Unbind { ch, end: oth });
+                self.set_end(a, ch, oth, GEnd::None);
+                let k = self.unbound[oth as usize] as u8;
+                self.unbound[oth as usize] += 1;
+                let c = self.client();
+                let tc = self.task(c);
+                self.push(tc, Op::Bind { ch: 0, end: oth, k });
+                self.push(tc, Op::Bind { ch: 1, end: oth, k });
+                self.push(tc, Op::Claim { ch: 0, end: oth, cap });
+                let tc2 = if self.t.bool() { self.task(c) } else { tc };
+                self.push(tc2, Op::Claim { ch: 1, end: oth, cap });
+                // and uses the one that went through
+                let tc3 = self.task(c);
+                if oth == End::Snd {
+                    self.push(tc3, Op::Send { ch: 0, n: 3 });
+                } else {
+                    self.push(tc3, Op::Recv { ch: 0, n: 2, wait: false });
+                }
+            }
+            3 => {
+                // the creator end is killed while the claim of the other end is in flight
+                self.push(ta, Op::Unbind { ch, end: oth });
+                self.set_end(a, ch, oth, GEnd::None);
+                let k = self.unbound[oth as usize] as u8;
+                self.unbound[oth as usize] += 1;
+                let c = self.client_other_than(a);
+                let tc = self.task(c);
+                let chc = self.t.below(NCH) as u8;
+                self.push(tc, Op::Bind { ch: chc, end: oth, k });
+                let ta2 = if self.t.bool() { self.task(a) } else { ta };
+                if self.t.bool() {
+                    self.push(ta2, Op::DropEnd { ch, end: claim });
+                } else {
+                    self.push(ta2, Op::CloseEnd { ch, end: claim });
+                }
+                self.push(tc, Op::Claim { ch: chc, end: oth, cap });
+            }
+            _ => {
+                // a claim of an end that was closed unclaimed elsewhere
+                self.push(ta, Op::Unbind { ch, end: oth });
+                self.set_end(a, ch, oth, GEnd::None);
+                let k = self.unbound[oth as usize] as u8;
+                self.unbound[oth as usize] += 1;
                 let c = self.client();
                 let tc = self.task(c);
                 let chc = self.t.below(NCH) as u8;
                 self.push(tc, Op::Bind { ch: chc, end: oth, k });
-                self.push(tc, Op::Claim { ch: chc, end: oth, cap });
+                if self.t.bool() {
+                    self.push(tc, Op::CloseEnd { ch: chc, end: oth });
+                } else {
+                    self.push(tc, Op::DropEnd { ch: chc, end: oth });
+                }
+                let d = self.client();
+                let td = self.task(d);
+                let chd = self.t.below(NCH) as u8;
+                self.push(td, Op::Bind { ch: chd, end: oth, k });
+                self.push(td, Op::Claim { ch: chd, end: oth, cap });
             }
         }
     }
@@ -821,7 +1024,9 @@ impl Gen<'_, '_> {
         let ta = self.task(a);
         let ch = self.t.below(NCH) as u8;
         let claim = self.end();
-        let cap = self.t.below(CAPS.len()) as u8;
+        // capacities 1, 2, 4 only when the class aims at the credit top-up paths
+        let ncaps = if self.aim == Aim::SmallCredit { 3 } else { CAPS.len() };
+        let cap = self.t.below(ncaps) as u8;
         let oth = other(claim);
         self.push(ta, Op::CreateChannel { ch, claim, cap });
         self.set_end(a, ch, claim, GEnd::Pending);
@@ -836,7 +1041,7 @@ impl Gen<'_, '_> {
             b = self.client_other_than(a);
             tb = self.task(b);
             chb = if b == a { ch } else { self.t.below(NCH) as u8 };
-            let cap2 = self.t.below(CAPS.len()) as u8;
+            let cap2 = self.t.below(ncaps) as u8;
             self.push(tb, Op::Bind { ch: chb, end: oth, k });
             self.push(tb, Op::Claim { ch: chb, end: oth, cap: cap2 });
             self.set_end(b, chb, oth, GEnd::Est);
@@ -852,7 +1057,7 @@ impl Gen<'_, '_> {
             b = a;
             chb = ch;
             tb = self.task(a);
-            let cap2 = self.t.below(CAPS.len()) as u8;
+            let cap2 = self.t.below(ncaps) as u8;
             self.push(tb, Op::Claim { ch, end: oth, cap: cap2 });
             self.set_end(a, ch, oth, GEnd::Est);
         }
